@@ -48,7 +48,10 @@ PROPS = {
                 "repeated principal ids, thresholds -1..5, reserved / allow-rule / empty names, nil and foreign principal types, invalid hook "
                 "stages. After every edit the error class and a canonical dump of the real object are compared with the model and the "
                 "invariant is evaluated on the dump; finally the object is marshalled/unmarshalled with encoding/json and (legacy) migrated "
-                "to v02 and the dumps compared. non-trivial = at least one accepted modelled edit changed the object; distinct by input hash.",
+                "to v02 and the dumps compared. The witnesses of the fixed findings F10, F20, F21, F22 (corpus/C13) are replayed first on "
+                "every run and must show the repaired behaviour (AddRule/UpdateRule with repeated ids refused; version survives reload; "
+                "refused AddHook leaves the root unchanged; RemoveHook with an invalid stage refused). "
+                "non-trivial = at least one accepted modelled edit changed the object; distinct by input hash.",
         "trusted_base": COMMON_TB,
         "assumptions": ["uniqueness of rule names across rule files (repository API layer) is not covered",
                         "Matches() is compared at the level of the pattern lists, fnmatch itself is not modelled",
